@@ -302,6 +302,82 @@ def rule_member_qual(chk, prog, tier):
     r.exhaustive = True
 
 
+# ------------------------------------------------------------------ C10.h static_assert
+
+def rule_staticassert(chk, prog, tier):
+    r = chk.rule('C10.h', 'static_assert: only `static_assert ( constant-expression ) ;` and `static_assert ( constant-expression , string-literal ) ;` are accepted, a false condition is diagnosed, anything else starting with the keyword is a syntax error, and a declaration not starting with it is left untouched',
+                 floor=40, oracle='C11 6.7.10, C23 (message optional)')
+    fn = prog.require_func('staticassert', 'decl.c')
+    base = [[('TSTATIC_ASSERT', None), ('TLPAREN', None), ('ICE', 1), ('TRPAREN', None), ('TSEMICOLON', None)],
+            [('TSTATIC_ASSERT', None), ('TLPAREN', None), ('ICE', 1), ('TCOMMA', None), ('STR', 'm'), ('TRPAREN', None), ('TSEMICOLON', None)]]
+    seqs = []
+    for b in base:
+        for cond in (1, 0):
+            b2 = [(k, cond if k == 'ICE' else v) for k, v in b]
+            seqs.append(b2)
+            for i_ in range(len(b2)):
+                seqs.append(b2[:i_] + b2[i_ + 1:])
+                seqs.append(b2[:i_] + [b2[i_]] + b2[i_:])
+    seqs.append([('TINT', None), ('TIDENT', 'x'), ('TSEMICOLON', None)])
+    seen = set()
+    for toks in seqs:
+        keyt = ' '.join({'TSTATIC_ASSERT': 'static_assert', 'TLPAREN': '(', 'TRPAREN': ')', 'TCOMMA': ',', 'TSEMICOLON': ';', 'ICE': None, 'STR': '"m"', 'TINT': 'int', 'TIDENT': 'x'}[k] or str(v) for k, v in toks)
+        if keyt in seen: continue
+        seen.add(keyt)
+        # reference
+        def ref(t):
+            if not t or t[0][0] != 'TSTATIC_ASSERT': return 'untouched'
+            ks = [k for k, _ in t]
+            n = None
+            if ks[:5] == ['TSTATIC_ASSERT', 'TLPAREN', 'ICE', 'TRPAREN', 'TSEMICOLON']: n = 5
+            elif ks[:4] == ['TSTATIC_ASSERT', 'TLPAREN', 'ICE', 'TCOMMA']:
+                j = 4
+                while j < len(ks) and ks[j] == 'STR': j += 1
+                if j > 4 and ks[j:j + 2] == ['TRPAREN', 'TSEMICOLON']: n = j + 2
+            if n is None: return 'error'
+            return ('ok', n) if t[2][1] else 'error'        # what follows the assertion is the next declaration's business
+        want = ref(toks)
+        def runner(it):
+            stream = toks + [('TEOF', None)]
+            tokobj = it.gobj('tok'); st = {'i': 0}
+            def load():
+                k, v = stream[min(st['i'], len(stream) - 1)]
+                tokobj.f[('kind',)] = ev(prog, {'ICE': 'TNUMBER', 'STR': 'TSTRINGLIT'}.get(k, k))
+                tokobj.f[('lit',)] = Ptr(it.mkstr(list(b'"m"'), 'lit'), (0,)) if k in ('STR', 'TIDENT') else None
+                tokobj.f[('loc', 'file')] = None; tokobj.f[('loc', 'line')] = 1; tokobj.f[('loc', 'col')] = 1
+            def nxt(i2, a, e): st['i'] += 1; load(); return None
+            def consume(i2, a, e):
+                if tokobj.f[('kind',)] == a[0] and stream[min(st['i'], len(stream) - 1)][0] != 'ICE': nxt(i2, a, e); return 1
+                return 0
+            def expect(i2, a, e):
+                if tokobj.f[('kind',)] != a[0] or stream[min(st['i'], len(stream) - 1)][0] == 'ICE': raise Terminal('error', 'expected token')
+                nxt(i2, a, e); return None
+            def ice(i2, a, e):
+                k, v = stream[min(st['i'], len(stream) - 1)]
+                if k != 'ICE': raise Terminal('error', 'expected constant expression')
+                nxt(i2, a, e); return v
+            def stringconcat(i2, a, e):
+                if stream[min(st['i'], len(stream) - 1)][0] != 'STR': raise Unsupported('stringconcat on a non-string token')
+                while stream[min(st['i'], len(stream) - 1)][0] == 'STR': nxt(i2, a, e)
+                i2.assign(a[0].obj, a[0].path + ('size',), 2); i2.assign(a[0].obj, a[0].path + ('data',), Ptr(i2.mkstr(list(b'm'), 'msg'), (0,)))
+                return None
+            it.models.update({'next': nxt, 'consume': consume, 'expect': expect, 'intconstexpr': ice, 'stringconcat': stringconcat, 'tokendesc': lambda i2, a, e: None,
+                              'error': lambda i2, a, e: (_ for _ in ()).throw(Terminal('error', cmodel.fmt_of(i2, a, 1))),
+                              'fatal': lambda i2, a, e: (_ for _ in ()).throw(Terminal('fatal', cmodel.fmt_of(i2, a, 0)))})
+            load()
+            res = it.call(fn, [Ptr(Obj('scope', 'heap'), ())])
+            return bool(res), st['i']
+        runs = explore(prog, runner, {}, max_runs=4, on_unsupported='keep')
+        if len(runs) != 1 or runs[0].outcome == 'unsupported':
+            raise AnalysisBroken('staticassert(%s): %s' % (keyt, runs[0].detail if runs else 'no run'))
+        run = runs[0]
+        if want == 'untouched': ok = run.outcome == 'return' and run.value == (False, 0)
+        elif isinstance(want, tuple): ok = run.outcome == 'return' and run.value == (True, want[1])
+        else: ok = run.outcome == 'terminal:error'
+        r.instance(ok, 'static_assert:%s' % keyt, 'decl.c:%s' % fn.get('line'), 'expected %s; got %s %s' % (want, run.outcome, run.value if run.outcome == 'return' else run.detail))
+    r.exhaustive = False
+
+
 def run(chk, tier):
     from props import c01f
     prog = facts.programs()['cproc-qbe']
@@ -313,3 +389,8 @@ def run(chk, tier):
     chk.guard('C10.f', lambda: c01f.rule_syntax(chk, prog, tier))
     from props import c07
     chk.guard('C07.e', lambda: c07.rule_addrconst(chk, prog, tier))
+    from props import c12
+    chk.guard('C12.c', lambda: c12.rule_directives(chk, prog, tier))   # unimplemented directives and ## are diagnosed
+    chk.guard('C10.h', lambda: rule_staticassert(chk, prog, tier))
+    from props import c09
+    chk.guard('C09.f', lambda: c09.rule_redecl_types(chk, prog, tier))
